@@ -4,15 +4,27 @@ C19 — property theorems (statements, short proofs from the lemmas, non-vacuity
 Setting.  `cfg : Nat → LockCfg` gives every `RedisLock` instance (any number of them, `Nat` is unbounded)
 its key and its id.  `DistinctIds cfg` is the one assumption on the random 16-character ids: instances on
 the same key carry different ids.  A history is any list of `Op`s (`ft ms` clock advance, `acquire i`,
-`release i`, `setExpire i s`) — every theorem below quantifies over *all* states or *all* histories.
-Every Acquire/Release is one atomic script run on the store (Redis' guarantee), so a concurrent schedule
-of calls *is* such a history: the order in which the script runs hit Redis.
+`release i`, `setExpire i s`, `acquireS i seconds`) — every theorem below quantifies over *all* states or
+*all* histories.
+
+Schedules.  A call is made of atomic steps: Acquire = `atomic.LoadUint32(&seconds)`, then one script run
+(atomic in Redis), then local decoding of the reply; Release = one script run; SetExpire = one
+`atomic.StoreUint32`.  The only shared state is the Redis store and the `seconds` words.  So a concurrent
+execution of any number of goroutines is a sequence of such steps, and its effect on the shared state is
+the history that lists the stores and the script runs in the order they happened, an Acquire's script run
+written `acquireS i s` with `s` the value its load returned (`acquire i` is the special case where nothing
+happened in between, `acquire_is_load_then_run`).  All history theorems range over these histories, i.e.
+over every schedule; what is trusted is that Redis runs a script atomically.
 -/
 import GoZero.C19.Refine
 namespace GoZero.C19
 open Spec
 
 /-! ### Acquire -/
+
+/-- a whole `Acquire()` call with nothing in between = load `seconds`, then run the script with it. -/
+theorem acquire_is_load_then_run (cfg : Nat → LockCfg) (st : St) (i : Nat) :
+    step cfg st (.acquire i) = step cfg st (.acquireS i (st.secs i)) := rfl
 
 /-- **Acquire succeeds iff nobody else holds the key unexpired**: the key is absent/expired, or it already
 carries this instance's id (in every state whatsoever). -/
@@ -185,30 +197,8 @@ theorem concurrent_acquires_one_winner (cfg : Nat → LockCfg) (hd : DistinctIds
     (js : List Nat) (hk : ∀ j ∈ js, (cfg j).key = k) (st : St) :
     ∀ x ∈ winners cfg st js, ∀ y ∈ winners cfg st js, x = y := by
   intro x hx y hy
-  have hxk : (cfg x).key = k := by
-    have : ∀ (js : List Nat) (st : St), x ∈ winners cfg st js → x ∈ js := by
-      intro js
-      induction js with
-      | nil => intro st h; simp [winners] at h
-      | cons j js ih =>
-        intro st h
-        simp only [winners, List.mem_append] at h
-        rcases h with h | h
-        · split at h <;> simp at h; simp [h]
-        · exact List.mem_cons_of_mem _ (ih _ h)
-    exact hk x (this js st hx)
-  have hyk : (cfg y).key = k := by
-    have : ∀ (js : List Nat) (st : St), y ∈ winners cfg st js → y ∈ js := by
-      intro js
-      induction js with
-      | nil => intro st h; simp [winners] at h
-      | cons j js ih =>
-        intro st h
-        simp only [winners, List.mem_append] at h
-        rcases h with h | h
-        · split at h <;> simp at h; simp [h]
-        · exact List.mem_cons_of_mem _ (ih _ h)
-    exact hk y (this js st hy)
+  have hxk : (cfg x).key = k := hk x (winners_subset cfg x js st hx)
+  have hyk : (cfg y).key = k := hk y (winners_subset cfg y js st hy)
   exact hd x y (by rw [hxk, hyk]) (winners_same_id cfg k js st hk x hx y hy)
 
 /-- … and if the key is free, the first script run wins (so exactly one instance succeeds). -/
@@ -258,6 +248,11 @@ example : (acquire exCfg St.init 0).2 = true ∧ St.init.secs 0 * 1000 + 500 ≤
 
 -- hypotheses of `others_refused_while_held`
 example : holds exCfg (run exCfg St.init [.acquire 1]) 1 := by decide
+
+-- a schedule in which SetExpire(0) slips in between the load (seconds = 2) and the script run of an Acquire:
+-- the lease is the loaded 2·1000+500 ms
+example : (run exCfg St.init [.setExpire 0 2, .setExpire 0 0, .acquireS 0 2]).view "k" = some ("a", 2500) := by
+  decide
 
 -- a burst of five attempts (instance 2 twice): only instance 2, whose script ran first, wins
 example : winners exCfg St.init [2, 0, 1, 2, 3] = [2, 2] := by decide
